@@ -69,12 +69,17 @@ var c04Wirings = []string{"idx", "fkc", "casc", "cyc"}
 // non-nullable fk, self reference, duplicate id).
 
 type c04Gen struct {
-	r      *rng
-	w      *wiring
-	ids    []string
-	vals   []string
-	ents   map[string]map[string]map[string]*string // root -> id -> field -> believed value
-	unique map[string]bool                          // store.field has a unique index
+	r          *rng
+	w          *wiring
+	ids        []string
+	vals       []string
+	ents       map[string]map[string]map[string]*string // root -> id -> field -> believed value
+	unique     map[string]bool                          // store.field has a unique index
+	shared     bool                                     // every transaction of the history runs with the shared mutate context ("@ctx")
+	graves     map[string][]string                      // root -> ids believed deleted in the current mutate-context scope (store_c04_reuse.go)
+	forced     map[string]string                        // fk field -> value imposed on the next values() call
+	reuseFirst bool                                     // the second transaction of the history is a re-use life cycle (belief still exact)
+	nReuse     int                                      // transactions produced by reuseTxs
 }
 
 func newC04Gen(r *rng, w *wiring, ids []string) *c04Gen {
@@ -173,6 +178,9 @@ func (g *c04Gen) believeDelete(root, id string, depth int) bool {
 		}
 	}
 	delete(g.ents[root], id)
+	if g.graves != nil && !containsStr(g.graves[root], id) {
+		g.graves[root] = append(g.graves[root], id)
+	}
 	return true
 }
 
@@ -207,6 +215,8 @@ func (g *c04Gen) values(op *hOp) (valid bool) {
 			switch {
 			case k < 4:
 				op.F[f.Name] = sp(g.ids[g.r.intn(len(g.ids))]) // any id: often a missing target
+			case k >= 92 && len(g.graves[troot]) > 0:
+				op.F[f.Name] = sp(g.graves[troot][g.r.intn(len(g.graves[troot]))]) // a target deleted earlier in this context
 			case k < 7:
 				op.F[f.Name] = sp("")
 			case k < 13 && troot == root:
@@ -217,6 +227,9 @@ func (g *c04Gen) values(op *hOp) (valid bool) {
 				op.F[f.Name] = sp(alive[g.r.intn(len(alive))])
 			default:
 				op.F[f.Name] = sp(g.ids[g.r.intn(len(g.ids))])
+			}
+			if fv, ok := g.forced[f.Name]; ok {
+				op.F[f.Name] = sp(fv)
 			}
 			v := op.F[f.Name]
 			nullable := d.Nullable && d.Kind != "fkindexcascade"
@@ -304,6 +317,9 @@ func (g *c04Gen) genOp() hOp {
 				op.Id = g.ids[g.r.intn(len(g.ids))]
 			}
 		}
+		if gr := g.graves[root]; len(gr) > 0 && g.r.chance(15) {
+			op.Id = gr[g.r.intn(len(gr))] // re-create an id deleted earlier in this context
+		}
 		valid := g.values(&op)
 		if _, exists := g.ents[root][op.Id]; valid && !exists && op.Id != "" {
 			g.ents[root][op.Id] = op.F
@@ -380,12 +396,33 @@ func containsStr(l []string, x string) bool {
 func (g *c04Gen) genHistory() []hTx {
 	n := 4 + g.r.intn(10)
 	var txs []hTx
+	// one history in four keeps ONE mutate context for all its transactions (pseudo veto "@ctx"): what the code
+	// remembers per context then outlives the transaction; pre-commit actions stay registered on a context for
+	// good and are therefore not combined with it
+	g.shared = g.r.chance(25)
+	g.graves = map[string][]string{}
 	for i := 0; i < n; i++ {
+		if g.r.chance(14) || (i == 1 && g.reuseFirst) {
+			// the life cycle of one fk target inside one context (store_c04_reuse.go)
+			if r := g.reuseTxs(); len(r) > 0 {
+				txs = append(txs, r...)
+				g.nReuse += len(r)
+				continue
+			}
+		}
 		t := hTx{Sys: g.r.chance(12), PreCommitErr: g.r.chance(2)}
+		if g.shared {
+			t.PreCommitErr = false
+			t.Vetoes = append(t.Vetoes, hVeto{Store: "@ctx", Change: "C", Id: ""})
+		} else {
+			g.graves = map[string][]string{}
+		}
 		ops := 1
-		if k := g.r.intn(100); k >= 85 {
+		if k := g.r.intn(100); k >= 92 {
+			ops = 4 + g.r.intn(4) // a long transaction: deletes and later re-use of their ids meet in one context
+		} else if k >= 80 {
 			ops = 3
-		} else if k >= 62 {
+		} else if k >= 58 {
 			ops = 2
 		}
 		snapshot := g.snapshot()
@@ -401,7 +438,7 @@ func (g *c04Gen) genHistory() []hTx {
 				t.Vetoes = append(t.Vetoes, hVeto{Store: op.Store, Change: ch, Id: op.Id})
 			}
 		}
-		if t.PreCommitErr || len(t.Vetoes) > 0 || t.Ops[len(t.Ops)-1].Kind == "FAIL" {
+		if t.PreCommitErr || (len(t.Vetoes) > 0 && t.Vetoes[len(t.Vetoes)-1].Store != "@ctx") || t.Ops[len(t.Ops)-1].Kind == "FAIL" {
 			g.ents = snapshot
 		}
 		txs = append(txs, t)
@@ -539,7 +576,12 @@ func genC04(seed int64, n int, stats map[string]int) []string {
 			stats["stream_plain_ids"]++
 		}
 		g := newC04Gen(r, w, ids)
+		g.reuseFirst = (i/(2*len(c04Wirings)))%3 == 0
 		txs := g.genHistory()
+		stats["tx_reuse_lifecycle"] += g.nReuse
+		if g.shared {
+			stats["histories_shared_ctx"]++
+		}
 		var c strings.Builder
 		c.WriteString(w.text())
 		for k := range txs {
@@ -552,6 +594,9 @@ func genC04(seed int64, n int, stats map[string]int) []string {
 		stats["tx"] += len(txs)
 		for _, t := range txs {
 			stats["ops"] += len(t.Ops)
+			if len(t.Ops) >= 4 {
+				stats["tx_4plus_ops"]++
+			}
 			for _, op := range t.Ops {
 				stats["op_"+op.Kind]++
 			}
@@ -601,8 +646,12 @@ func runStoreIso(o *opts) error {
 			lines = append(lines, sweepC04(stats)...)
 			if o.thorough() {
 				lines = append(lines, exhaustC04(3, stats)...)
+				lines = append(lines, exhaustCtxC04(3, true, stats)...)
+				lines = append(lines, exhaustCtxC04(3, false, stats)...)
 			} else {
 				lines = append(lines, exhaustC04(2, stats)...)
+				lines = append(lines, exhaustCtxC04(3, true, stats)...)
+				lines = append(lines, exhaustCtxC04(2, false, stats)...)
 			}
 		}
 		lines = append(lines, genC04(o.seed, n, stats)...)
